@@ -20,31 +20,31 @@ namespace Rie.Props.C15
 open Rie.Sys Rie.SM
 
 theorem foldl_emit_out (l : List Agent) (f : Agent → String) (s : State) :
-    (l.foldl (fun s a => s.emit (f a)) s).out = s.out ++ l.map f := by
+    (l.foldl (fun s a => s.emit (f a)) s).outs = s.outs ++ l.map f := by
   induction l generalizing s with
   | nil => simp
-  | cons a l ih => simp only [List.foldl_cons, ih, emit_out, List.map_cons, List.append_assoc, List.singleton_append]
+  | cons a l ih => simp only [List.foldl_cons, ih, emit_outs, List.map_cons, List.append_assoc, List.singleton_append]
 
 /-- **Shape of an init's tail.** Whatever the result, finishing an init emits, in this order: at most
     one init-runtime-done (exactly when the runtime had been started), one line per extension in
     the registration maps with its current state / subscriptions / error type, then exactly one
     init-report — all tagged with the phase (`init` or `invoke`) the init ran in. -/
 theorem C15_init_tail (s : State) (ph : Phase) (status : String) :
-    (initTailEvents s ph status).out =
-      s.out ++ (if s.rtDoneReg then [s!"ev initRuntimeDone:{ph.str}:{status}:{if status == "success" then "-" else s.fatal.getD "Runtime.Unknown"}"] else [])
+    (initTailEvents s ph status).outs =
+      s.outs ++ (if s.rtDoneReg then [s!"ev initRuntimeDone:{ph.str}:{status}:{if status == "success" then "-" else s.fatal.getD "Runtime.Unknown"}"] else [])
             ++ ((s.agents.filter (·.ext)) ++ (s.agents.filter (!·.ext))).map agentInfoLine
             ++ [s!"ev initReport:{ph.str}"] := by
   unfold initTailEvents
   by_cases h : s.rtDoneReg = true
-  · simp only [h, ↓reduceIte, emit_out, foldl_emit_out, emit_agents, List.append_assoc]
-  · simp only [h, Bool.false_eq_true, ↓reduceIte, emit_out, foldl_emit_out, List.append_nil, List.append_assoc]
+  · simp only [h, ↓reduceIte, emit_outs, foldl_emit_out, emit_agents, List.append_assoc]
+  · simp only [h, Bool.false_eq_true, ↓reduceIte, emit_outs, foldl_emit_out, List.append_nil, List.append_assoc]
 
 /-- an init starts with exactly one init-start carrying the phase -/
 theorem C15_init_start (s : State) (ph : Phase) :
-    ∃ s1 : State, s1.out = s.out ++ [s!"ev initStart:{ph.str}"] ∧
+    ∃ s1 : State, s1.outs = s.outs ++ [s!"ev initStart:{ph.str}"] ∧
       (startInit s ph = initFinish { s1 with gen := s.gen + 1, rtDoneReg := false } ph false "success" none ∨
-       ∃ s2 : State, s2.out = s1.out ∧ startInit s ph = launchExtensions s2 ph s.extFiles) := by
-  refine ⟨s.emit s!"ev initStart:{ph.str}", rfl, ?_⟩
+       ∃ s2 : State, s2.outs = s1.outs ∧ startInit s ph = launchExtensions s2 ph s.extFiles) := by
+  refine ⟨s.emit s!"ev initStart:{ph.str}", emit_outs _ _, ?_⟩
   unfold startInit
   by_cases hc : (s.initFlow.extRegistered.setCount s.extFiles.length).2 = true
   · right
@@ -67,7 +67,7 @@ theorem C15_success_needs_runtime_next (st : RtState) (c : RtCall) (is : List (I
     which lies behind the runtime-response gate (C04_completion_barrier). -/
 theorem C15_runtime_done_success (s : State) (ho : s.orch = .vAwaitRuntimeReady)
     (hop : s.invFlow.runtimeReady.isOpen = true) (hc : s.invFlow.runtimeReady.canceled = false) :
-    ∃ s', orchResume s = some s' ∧ "ev invokeRuntimeDone:success:-" ∈ s'.out := by
+    ∃ s', orchResume s = some s' ∧ Out.line "ev invokeRuntimeDone:success:-" ∈ s'.out := by
   by_cases ha : s.agents.length > 0
   · exact ⟨_, by simp [orchResume, ho, hop, hc, ha]; rfl, by simp [State.emit]⟩
   · refine ⟨_, by simp [orchResume, ho, hop, hc, ha]; rfl, ?_⟩
@@ -77,7 +77,7 @@ theorem C15_runtime_done_success (s : State) (ho : s.orch = .vAwaitRuntimeReady)
 example :
     let s0 : State := { extFiles := ["a"] }
     let s := [Op.invoke 0 5 "h", .register "a" [.invoke, .shutdown] "", .agNext "a" "", .rtNext].foldl (step 0) s0
-    s.out = ["ev initRuntimeDone:init:success:-", "ev extensionInit:a:Ready:INVOKE+SHUTDOWN:-", "ev initReport:init",
+    s.outs = ["ev initRuntimeDone:init:success:-", "ev extensionInit:a:Ready:INVOKE+SHUTDOWN:-", "ev initReport:init",
              "ev invokeStart:id#1", "rt.next=200,id#1,body=h,arn=ok,ctx=ctx0", "a.next=200,INVOKE,id#1,arn=ok,trace"] := by
   decide
 
